@@ -1,13 +1,15 @@
 """C01 — generation terminates and every emitted module is valid Python."""
 from __future__ import annotations
 
+import contextlib
 import copy
 import json
 import time
 
-from .. import docs, e2e, gens
+from .. import docs, e2e, gens, guard, shape
 from ..common import hx, unhx
 from ..runner import Check
+from . import c01_refs
 
 TARGETS = ["3.9", "3.10", "3.11", "3.12", "3.13"]
 BOOL_OPTS = [
@@ -105,6 +107,10 @@ def all_strings(doc, key: str) -> list[str]:
     return out
 
 
+# the render-boundary observer (vlib/props/render_probe.py); set by run() for the duration of the campaigns
+PROBE = None
+
+
 def run_case(ck: Check, camp, case: dict) -> None:
     doc, model, opts = case["doc"], case["model"], case["opts"]
     if case.get("set_opts"):  # options whose value is a set travel as sorted lists (JSON); generate() wants the set
@@ -115,8 +121,11 @@ def run_case(ck: Check, camp, case: dict) -> None:
     camp.hit("stream:clean" if clean else "stream:adversarial")
     camp.hit(f"formatters:{'default' if fm else 'off'}")
     camp.hit(f"input:{ift}")
-    res = e2e.run_generate(doc, input_file_type=ift, model=model, opts=opts, formatters=fm, timeout=15, target=target,
-                           modular=bool(opts.get("treat_dot_as_module")) or case.get("modular", False))
+    with (PROBE.capture(case) if PROBE is not None else contextlib.nullcontext()) as observed:
+        res = e2e.run_generate(shape.doc_text(doc), input_file_type=ift, model=model, opts=opts, formatters=fm, timeout=15, target=target,
+                               modular=bool(opts.get("treat_dot_as_module")) or case.get("modular", False))
+        if observed is not None:
+            observed.files = res.files
     base = {"oracle": "terminates_and_parses", "kind": model, "stream": "clean" if clean else "adversarial"}
     if res.hang:
         ck.fail({**base, "mechanism": "hang"}, case, f"generate() did not return within 15 s")
@@ -133,7 +142,16 @@ def run_case(ck: Check, camp, case: dict) -> None:
                                       modular=bool(opts.get("treat_dot_as_module")) or case.get("modular", False))
                 if r2.ok:
                     trig = "collapse_root_models"
-            ck.fail({**base, "mechanism": "recursion_error", "trigger": trig}, case, f"RecursionError instead of a reported error: {res.error_msg}")
+            tags = c01_refs.classify(doc) & {"empty_segment", "hash_segment"} if trig == "other" else set()
+            if tags:
+                # attribution for the recorded finding: the same document with the empty pointer segments removed does not
+                # end in RecursionError
+                r2 = e2e.run_generate(shape.doc_text(c01_refs.without_empty_segments(doc)), input_file_type=ift, model=model, opts=opts, formatters=fm,
+                                      timeout=15, target=target, modular=bool(opts.get("treat_dot_as_module")) or case.get("modular", False))
+                if r2.error_type != "RecursionError" and not r2.hang:
+                    trig = "ref_pointer_empty_segment" if "empty_segment" in tags else "ref_pointer_hash_segment"
+            if not ck.fail({**base, "mechanism": "recursion_error", "trigger": trig}, case, f"RecursionError instead of a reported error: {res.error_msg}"):
+                case["_known_finding"] = True
         elif clean and not (fm and res.error_type in ("InvalidInput",)):
             ck.fail({**base, "mechanism": "error_on_supported_input", "error": res.error_type}, case,
                     f"well-formed input inside the documented feature set failed: {res.error_type}: {res.error_msg}")
@@ -145,10 +163,35 @@ def run_case(ck: Check, camp, case: dict) -> None:
         err = e2e.parses(code, target)
         if err:
             site, trig, rendering = attribute(case, target, code)
-            ck.fail({**base, "mechanism": "unparsable", "site": site, "trigger": trig, "rendering": rendering}, case, f"{path} does not parse for target {target or 'default'}: {err}")
+            if not ck.fail({**base, "mechanism": "unparsable", "site": site, "trigger": trig, "rendering": rendering}, case, f"{path} does not parse for target {target or 'default'}: {err}"):
+                case["_known_finding"] = True
             return
     if len(camp.samples) < 2:
         camp.samples.append({"model": model, "opts": opts, "formatters": fm, "target": target, "doc_features": case.get("features")})
+
+
+def required_names(doc) -> list:
+    out = []
+    if isinstance(doc, dict):
+        for k, v in doc.items():
+            if k == "required" and isinstance(v, list):
+                out += [x for x in v if isinstance(x, str)]
+            else:
+                out += required_names(v)
+    elif isinstance(doc, list):
+        for v in doc:
+            out += required_names(v)
+    return out
+
+
+def without_required(doc, drop):
+    """copy of the document with the `required` entries for which `drop(name)` holds removed"""
+    if isinstance(doc, dict):
+        return {k: ([x for x in v if not (isinstance(x, str) and drop(x))] if k == "required" and isinstance(v, list) else without_required(v, drop))
+                for k, v in doc.items()}
+    if isinstance(doc, list):
+        return [without_required(v, drop) for v in doc]
+    return doc
 
 
 def attribute(case: dict, target, code: str) -> tuple[str, str, str]:
@@ -158,6 +201,30 @@ def attribute(case: dict, target, code: str) -> tuple[str, str, str]:
     from jinja2.filters import do_indent
 
     from .c10 import D5_PINNED_PATTERN_TABLE
+    cyc = c01_refs.classify(case["doc"]) & {"self_ref", "pure_ref_cycle"}
+    if cyc:
+        # a schema that is nothing but a reference to itself (directly or through schemas that are only references)
+        r = e2e.run_generate(shape.doc_text(c01_refs.without_self_refs(case["doc"])), input_file_type=case.get("input_file_type", "jsonschema"), model=case["model"],
+                             opts=case["opts"], formatters=case.get("formatters"), timeout=15, target=target,
+                             modular=bool(case["opts"].get("treat_dot_as_module")) or case.get("modular", False))
+        if r.ok and all(e2e.parses(c, target) is None for p, c in r.files.items() if p.endswith(".py")):
+            import re
+
+            return "import", "self_ref" if "self_ref" in cyc else "pure_ref_cycle", "empty_import_module" if re.search(r"^import  as \w+$", code, re.M) else "other"
+    import re
+
+    if re.search(r"^\s+None: .*$", code, re.M) and not isinstance(case["doc"], str):
+        # a member without a name was rendered (Jinja prints the missing name as `None`): the placeholder that
+        # `required` entries naming no declared member leave behind
+        run = lambda d: e2e.run_generate(shape.doc_text(d), input_file_type=case.get("input_file_type", "jsonschema"), model=case["model"], opts=case["opts"],  # noqa: E731
+                                         formatters=case.get("formatters"), timeout=15, target=target,
+                                         modular=bool(case["opts"].get("treat_dot_as_module")) or case.get("modular", False))
+        trig = "undeclared_required_name"
+        if "" in required_names(case["doc"]):
+            r = run(without_required(case["doc"], lambda n: n == ""))
+            if r.ok and all(e2e.parses(c, target) is None for p, c in r.files.items() if p.endswith(".py")):
+                trig = "empty_required_name"
+        return "required_placeholder", trig, "nameless_member"
     for what in ("description", "pattern"):
         d2 = neutralise(case["doc"], what)
         if d2 == case["doc"]:
@@ -287,22 +354,26 @@ def _campaign_templates(ck: Check, quick: bool) -> None:
 
 def run(ck: Check) -> None:
     quick = ck.tier == "quick"
-    from ..translate import esc, template_ast, templates
+    from ..translate import code_sites, esc, loop_sites, template_ast, templates
     from . import tpl_search
 
-    ck.translate("EscTables", esc.generate())
-    ck.translate("Templates", templates.generate())
+    # a translator that throws (the code no longer has the shape it reads) leaves a stale table: broken obligations, not exit 2
+    shape.translate(ck, "EscTables", esc.generate)
+    shape.translate(ck, "Templates", templates.generate)
     # the templates themselves, as a deep-embedded AST from jinja2's own parser: the template theorems
     # (class_body_nonempty, class_body_lines_indented, …) are re-checked by the kernel against what the sources say now
-    ck.translate("TemplateAst", template_ast.generate())
-    from ..translate import code_sites
-
-    ck.translate("CodeSites", code_sites.generate())
+    shape.translate(ck, "TemplateAst", template_ast.generate)
+    shape.translate(ck, "CodeSites", code_sites.generate)
+    # the shape of the parsers' fix-point loops (fixpoint_loops_have_independent_exit, reserved_refs_only_grow)
+    shape.translate(ck, "LoopSites", loop_sites.generate)
     ck.search_hooks.append(tpl_search.search)
     ck.prove()
+    shape.mark_stale(ck)
     ck.assumptions += [
         "no Python grammar is modelled: grammatical validity of the emitted token skeletons is established by ast.parse(feature_version=target) over the campaign, not by a theorem",
-        "the two fix-point loops of the JSON-Schema parser are modelled abstractly (a set that only grows inside the finite set of $ref strings of the document); that the code's sets only grow is by reading",
+        "the fix-point loops of the JSON-Schema / OpenAPI parsers are modelled by their SHAPE (Gen/LoopSites, extracted from the AST): that a pass of the "
+        "reserved-ref loop only adds `$ref` strings of the document (the bound of growing_bounded_stabilises) and that the interpreter enforces its recursion "
+        "limit are by reading; that reserved_refs is only added to is an obligation (reserved_refs_only_grow)",
         "only Python 3.12 is available: other targets are checked with ast.parse(feature_version=…) only",
     ]
     ck.assumptions += [
@@ -313,17 +384,33 @@ def run(ck: Check) -> None:
         "pydantic/Config.jinja2: `class Config:` has a body only under the invariant of model/pydantic/base_model.py that a "
         "Config object has at least one field set (theorem config_class_body_nonempty is conditional on it)",
     ]
-    campaign_repr(ck, 1500 if quick else 20000)
-    campaign_text_slots(ck)
-    campaign_e2e(ck, 150 if quick else 2500, 200 if quick else 3500)
+    # a campaign that throws is a broken correspondence (guard.campaign), never an infrastructure error
+    global PROBE
+    from . import c01_allof, render_probe
+
+    PROBE = render_probe.Probe()  # observes the render boundary of every generate() run of the campaigns below
+    guard.campaign(ck, campaign_repr, 1500 if quick else 20000)
+    guard.campaign(ck, campaign_text_slots)
+    guard.campaign(ck, campaign_e2e, 150 if quick else 2500, 200 if quick else 3500)
     # after the older campaigns, so that their random streams are what they were before these were added
     from . import c01_extra
 
-    c01_extra.campaign_yaml_text(ck, run_case, 120 if quick else 2500)
-    c01_extra.campaign_field_extras(ck, run_case)
-    _campaign_templates(ck, quick)
-    tpl_search.self_test(ck)
-    known_findings(ck)
+    guard.campaign(ck, c01_extra.campaign_yaml_text, run_case, 120 if quick else 2500)
+    guard.campaign(ck, c01_extra.campaign_field_extras, run_case)
+    guard.campaign(ck, c01_refs.campaign_pointers, run_case, 140 if quick else 1500, 4 if quick else 30)
+    guard.campaign(ck, c01_allof.campaign_allof_required, run_case, 260 if quick else 3000)
+    from . import c01_placeholder
+
+    guard.campaign(ck, c01_placeholder.campaign_placeholders, 300 if quick else 4000)
+    guard.campaign(ck, _campaign_templates, quick)
+    guard.campaign(ck, tpl_search.self_test)
+    probe, PROBE = PROBE, None
+    guard.campaign(ck, render_probe.evaluate, probe, None, _case_json)
+    guard.campaign(ck, known_findings)
+
+
+def _case_json(case):
+    return {k: v for k, v in case.items() if not k.startswith("_")} if isinstance(case, dict) else case
 
 
 def replay(ck: Check, path: str) -> int:
